@@ -674,12 +674,11 @@ class EventManager(MpfController):
             self.debug_log("^^^^ Processing queue event '%s'. Callback: %s,"
                            " Args: %s", event, callback, kwargs)
 
-        # all handlers may have been removed in the meantime
-        if event not in self.registered_handlers:
-            return
+        # all handlers may have been removed in the meantime. we still have to call the callback
+        handlers = self.registered_handlers[event][:] if event in self.registered_handlers else []
 
         # Now let's call the handlers one-by-one, including any kwargs
-        for handler in self.registered_handlers[event][:]:
+        for handler in handlers:
             # use slice above so we don't process new handlers that came
             # in while we were processing previous handlers
 
